@@ -329,7 +329,7 @@ def id_steps(eng: NullFlow, idval, st: State):
         elif k == 'nth':
             steps.append((e.tag, 'first' if e.origin[3] == 0 else f'nth{e.origin[3]}'))
             sym = e.origin[1][1]
-        elif k == 'copy':
+        elif k in ('copy', 'shallowcopy'):
             src = st.get(e.origin[1][1]) if e.origin[1][1] in st.heap else None
             steps.append(('copy', (src.stag or src.tag) if src else '?'))
             break
